@@ -730,6 +730,9 @@ func (r *Runner) builtin(ctx context.Context, pos syntax.Pos, name string, args 
 			}
 			// Use -1 as max to get all fields without joining the last ones.
 			values := expand.ReadFields(r.ecfg, string(line), -1, raw)
+			if values == nil {
+				values = []string{} // an empty array rather than a nil list
+			}
 			r.setVar(arrayName, expand.Variable{
 				Set:  true,
 				Kind: expand.Indexed,
@@ -1009,7 +1012,9 @@ func (r *Runner) builtin(ctx context.Context, pos syntax.Pos, name string, args 
 		}
 
 		var vr expand.Variable
+		vr.Set = true
 		vr.Kind = expand.Indexed
+		vr.List = []string{} // an empty array rather than a nil list
 		scanner := bufio.NewScanner(r.stdin)
 		scanner.Split(mapfileSplit(delim[0], dropDelim))
 		// Like [Runner.readLine], make a blocked read return once the context is cancelled.
